@@ -83,6 +83,12 @@ def main():
         sh(f"git -C /repo worktree remove --force {wt}"); shutil.rmtree(wt, ignore_errors=True)
     print(json.dumps(conf, indent=1))
     if not ok:
+        dst = os.path.join(VERIF, "seeded", sid)
+        if os.path.realpath(src) == os.path.realpath(dst):
+            # re-confirmation of a kept change on a later tree: record that it no longer demonstrates a violation
+            meta["reconfirmed_here"] = conf
+            meta["status"] = "not reproducing on this tree (neutralised by a later fix: commit, or flaky) - see reconfirmed_here"
+            json.dump(meta, open(os.path.join(dst, "meta.json"), "w"), indent=1)
         print("NOT confirmed; not imported"); return 1
     dst = os.path.join(VERIF, "seeded", sid)
     os.makedirs(dst, exist_ok=True)
@@ -90,6 +96,7 @@ def main():
         shutil.copy(os.path.join(src, "patch.diff"), dst)
         shutil.copy(os.path.join(src, demo), dst)
     meta["confirmed_here"] = conf
+    meta.pop("status", None)
     meta.setdefault("property", sid.split("-")[0])
     json.dump(meta, open(os.path.join(dst, "meta.json"), "w"), indent=1)
     print("imported", dst)
